@@ -74,6 +74,13 @@ func tables() []tbl {
 				t.atoms = append(t.atoms, cmp(col, op, c))
 			}
 		}
+		// the constant written first (the grammar derives it; when the expression builder accepts it, it means
+		// the mirrored comparison)
+		for _, op := range ops {
+			sw := cmp(col, op, same[1])
+			sw.Swap = true
+			t.atoms = append(t.atoms, sw)
+		}
 		for _, c := range cross {
 			t.atoms = append(t.atoms, cmp(col, "=", c), cmp(col, "<", c))
 		}
